@@ -120,6 +120,10 @@ type node struct {
 	entry     *sval
 	final     *place
 	k         *lin
+	// accumulator identities at the time of the event (flow-sensitive: a
+	// conversion makes its destination the same accumulator as its source, an
+	// operation continues the accumulator of its first operand)
+	dstAcc, aAcc, bAcc types.Object
 
 	rec *recoding
 	tbl *tableRef
@@ -355,7 +359,9 @@ type extractor struct {
 	sym  *symtab
 
 	env      map[types.Object]*sval
-	uf       map[types.Object]types.Object
+	acc      map[types.Object]types.Object // location root -> accumulator it currently holds
+	origin   map[types.Object]*place       // location root -> place it was converted from
+	makes    map[types.Object]*lin         // slice local -> number of elements it was made with
 	recs     []*recoding
 	tbls     []*tableRef
 	problems []problem
@@ -393,7 +399,8 @@ func (kn *knowledge) extract(fn *types.Func) *Skeleton {
 		return sk
 	}
 	x := &extractor{kn: kn, info: kn.p.InfoOf(fn.Pkg()), fn: fn, decl: decl, sym: newSymtab(),
-		env: map[types.Object]*sval{}, uf: map[types.Object]types.Object{}, params: map[types.Object]int{},
+		env: map[types.Object]*sval{}, acc: map[types.Object]types.Object{}, origin: map[types.Object]*place{},
+		makes: map[types.Object]*lin{}, params: map[types.Object]int{},
 		locOrd: map[string]int{}, locRole: map[types.Object]string{}, fills: map[types.Object]string{},
 		declAt: map[types.Object]int{}, merged: map[types.Object]*atom{}}
 	sk.x = x
@@ -453,26 +460,30 @@ func (x *extractor) collect(f func()) []*node {
 	return out
 }
 
-// --- union-find over accumulator roots ---------------------------------------
+// --- accumulators -----------------------------------------------------------------
 
-func (x *extractor) find(o types.Object) types.Object {
-	for {
-		p, ok := x.uf[o]
-		if !ok || p == o {
-			return o
-		}
-		o = p
+// accOf returns the accumulator a location currently holds.
+func (x *extractor) accOf(p *place) types.Object {
+	if p == nil || p.root == nil {
+		return nil
 	}
+	if a, ok := x.acc[p.root]; ok {
+		return a
+	}
+	return p.root
 }
 
-func (x *extractor) union(a, b *place) {
-	if a == nil || b == nil || a.root == nil || b.root == nil {
-		return
+// resolve follows conversions back to the place a temporary was filled from
+// (cp.SetExtended(&buckets[i]) used as an addend denotes buckets[i]).
+func (x *extractor) resolve(p *place) *place {
+	for i := 0; p != nil && !p.elem && i < 8; i++ {
+		o, ok := x.origin[p.root]
+		if !ok || o == nil {
+			break
+		}
+		p = o
 	}
-	ra, rb := x.find(a.root), x.find(b.root)
-	if ra != rb {
-		x.uf[rb] = ra
-	}
+	return p
 }
 
 // --- roles ---------------------------------------------------------------------
@@ -835,6 +846,15 @@ func (x *extractor) evComposite(e *ast.CompositeLit) *sval {
 			if same && src != nil {
 				return &sval{k: svPoint, pl: src, role: "arrayinit"}
 			}
+			return &sval{}
+		}
+	}
+	// struct literals etc.: evaluate the element values for their events
+	for _, el := range e.Elts {
+		if kv, ok := el.(*ast.KeyValueExpr); ok {
+			x.ev(kv.Value)
+		} else {
+			x.ev(el)
 		}
 	}
 	return &sval{}
@@ -931,7 +951,7 @@ func (x *extractor) evCall(call *ast.CallExpr) *sval {
 			x.ev(a)
 		}
 		rv := x.ev(recvE)
-		x.emit(&node{kind: "other", pos: call.Pos(), callee: objKey(f), dst: rv.pl})
+		x.emit(&node{kind: "other", pos: call.Pos(), callee: objKey(f), dst: rv.pl, dstAcc: x.accOf(rv.pl)})
 		return rv
 	case "call":
 		var args []string
@@ -1163,6 +1183,11 @@ func (x *extractor) pointOp(cls string, f *types.Func, recvE ast.Expr, call *ast
 	switch cls {
 	case "I":
 		n.kind = "I"
+		delete(x.origin, dst.root)
+		if !dst.elem {
+			delete(x.acc, dst.root)
+		}
+		n.dstAcc = x.accOf(dst)
 	case "D1", "Dk":
 		n.kind = "D"
 		n.k = konst(1)
@@ -1179,7 +1204,10 @@ func (x *extractor) pointOp(cls string, f *types.Func, recvE ast.Expr, call *ast
 			}
 			n.k = k.n
 		}
-		x.union(dst, a)
+		n.aAcc = x.accOf(a)
+		n.dstAcc = n.aAcc
+		x.acc[dst.root] = n.aAcc
+		delete(x.origin, dst.root)
 	case "add", "sub":
 		n.kind = cls
 		if len(call.Args) != 2 {
@@ -1194,21 +1222,52 @@ func (x *extractor) pointOp(cls string, f *types.Func, recvE ast.Expr, call *ast
 		if b == nil && eb == nil {
 			x.problem(call.Pos(), "addend of "+f.Name()+" is neither a looked-up entry nor a point location")
 		}
+		b = x.resolve(b)
 		n.a, n.b, n.entry = a, b, eb
-		x.union(dst, a)
-	case "neg", "conv":
+		n.aAcc, n.bAcc = x.accOf(a), x.accOf(b)
+		n.dstAcc = n.aAcc
+		if n.aAcc != nil {
+			x.acc[dst.root] = n.aAcc
+		}
+		delete(x.origin, dst.root)
+	case "neg":
+		n.kind = cls
+		a, _ := argPlace(0)
+		if a == nil {
+			x.problem(call.Pos(), "operand of "+f.Name()+" is not a point location")
+		}
+		n.a, n.aAcc = a, x.accOf(a)
+		delete(x.acc, dst.root)
+		delete(x.origin, dst.root)
+		n.dstAcc = x.accOf(dst)
+	case "conv":
 		n.kind = cls
 		a, e := argPlace(0)
 		if a == nil && e == nil {
 			x.problem(call.Pos(), "operand of "+f.Name()+" is not a point location")
 		}
-		n.a, n.entry = a, e
-		if cls == "conv" && a != nil {
+		if e != nil {
+			// conversion of a looked-up entry: the location receives that entry
+			n.kind, n.entry = "load", e
+			delete(x.acc, dst.root)
+			delete(x.origin, dst.root)
+			n.dstAcc = x.accOf(dst)
+			break
+		}
+		n.a = a
+		if a != nil {
 			// representation change: same group element, same accumulator
-			x.union(dst, a)
-			if dst.elem && !a.elem {
+			n.aAcc = x.accOf(a)
+			n.dstAcc = n.aAcc
+			x.acc[dst.root] = n.aAcc
+			if !dst.elem {
+				x.origin[dst.root] = x.resolve(a)
+			}
+			if dst.elem {
 				// remember which role a buffer of points is filled from
-				x.fills[dst.root] = x.roleOf(a.root)
+				if r := x.roleOf(x.resolve(a).root); strings.HasPrefix(r, "each(") {
+					x.fills[dst.root] = r
+				}
 			}
 		}
 	}
@@ -1296,7 +1355,9 @@ func (x *extractor) assign(lhs ast.Expr, v *sval, define bool, pos token.Pos) {
 				switch v.k {
 				case svPoint:
 					if v.pl != nil {
-						x.emit(&node{kind: "copy", pos: pos, dst: dst, a: v.pl})
+						delete(x.acc, o)
+						delete(x.origin, o)
+						x.emit(&node{kind: "copy", pos: pos, dst: dst, a: v.pl, dstAcc: o, aAcc: x.accOf(v.pl)})
 					}
 				case svEntry:
 					x.env[o] = v
@@ -1308,8 +1369,8 @@ func (x *extractor) assign(lhs ast.Expr, v *sval, define bool, pos token.Pos) {
 		}
 		if x.isPointSlice(o.Type()) && v.k == svPoint && v.role == "arrayinit" {
 			// points := [n]T{P, ...}
-			x.emit(&node{kind: "conv", pos: pos, dst: &place{root: o, elem: true}, a: v.pl, desc: "init-all"})
-			x.union(&place{root: o}, v.pl)
+			x.emit(&node{kind: "conv", pos: pos, dst: &place{root: o, elem: true}, a: v.pl, desc: "init-all", aAcc: x.accOf(v.pl)})
+			x.acc[o] = x.accOf(v.pl)
 			x.env[o] = &sval{k: svPoint, pl: &place{root: o}}
 			return
 		}
@@ -1335,6 +1396,9 @@ func (x *extractor) assign(lhs ast.Expr, v *sval, define bool, pos token.Pos) {
 				x.env[o] = &sval{k: svInt, n: x.sym.atomLin(a)}
 				return
 			}
+		}
+		if v.k == svVec && v.n != nil {
+			x.makes[o] = v.n
 		}
 		if v.k == svUnknown {
 			// keep what the type tells
@@ -1369,8 +1433,8 @@ func (x *extractor) assign(lhs ast.Expr, v *sval, define bool, pos token.Pos) {
 			if idx.k == svInt {
 				dst.idx = idx.n
 			}
-			x.emit(&node{kind: "conv", pos: pos, dst: dst, a: v.pl, desc: "elem"})
-			x.union(dst, v.pl)
+			x.emit(&node{kind: "conv", pos: pos, dst: dst, a: v.pl, desc: "elem", aAcc: x.accOf(v.pl)})
+			x.acc[dst.root] = x.accOf(v.pl)
 			return
 		}
 		if base.k == svVec && base.elem == nil && v.k == svPoint {
@@ -1380,7 +1444,7 @@ func (x *extractor) assign(lhs ast.Expr, v *sval, define bool, pos token.Pos) {
 					if idx.k == svInt {
 						dst.idx = idx.n
 					}
-					x.emit(&node{kind: "copy", pos: pos, dst: dst, a: v.pl})
+					x.emit(&node{kind: "copy", pos: pos, dst: dst, a: v.pl, dstAcc: x.accOf(dst), aAcc: x.accOf(v.pl)})
 				}
 			}
 		}
